@@ -648,6 +648,7 @@ func main() {
 		seed, _ := strconv.ParseUint(os.Args[2], 10, 64)
 		o := hx.NewOut(os.Args[4], os.Args[5])
 		doGen(seed, os.Args[3], o)
+		o.Retry(runCase) // a case that ran out of time in this pass is re-run alone with 10x deadlines
 		o.Close()
 		return
 	}
@@ -656,6 +657,7 @@ func main() {
 		for _, l := range hx.ReadLines(os.Args[2]) {
 			o.Obs(runCase(l))
 		}
+		o.Retry(runCase) // a case that ran out of time in this pass is re-run alone with 10x deadlines
 		o.Close()
 		return
 	}
